@@ -54,6 +54,11 @@ theorem C06_scan_spec (cx : Ctx) (p : Nat) : scanTo cx p = posOf cx p := by
       | none => simp; omega
       | some d => simp; omega
 
+/-- The scope of the tracking theorems is exactly "every end-of-line policy but `cr_crlf`": every atom is covered,
+    the UTF-8 range atom (a multi-byte sequence contains no end-of-line byte) and the digit run of `maximum_rule`
+    included. -/
+theorem C06_scope (cx : Ctx) : TrackOK cx ↔ cx.eol ≠ .crCrlf := trackOK_iff cx
+
 /-- Positions are a function of the consumed prefix: after any invocation the tracked cursor is
     that of a scan, and so is every position in every event the invocation produced. -/
 theorem C06_tracked (cx : Ctx) (hok : TrackOK cx) (n i : Nat) (a : AMode) (m : RMode) (env : Env) (st : St) (r : Ret)
